@@ -23,13 +23,15 @@ CONSTANTS N,         \* module / arena ids 1..N
           MaxDepth,  \* layers per value
           MaxOpen,   \* unfrozen modules alive at once
           Hows,      \* subset of AllHows
+          Feat,      \* subset of AllFeat: which parts of the API the bounded run includes
           Bug        \* "none" or the name of the forgotten add_reference
 
 AllHows == {"direct", "list", "dict", "tuple", "gdef", "clos"}
+AllFeat == {"owned", "import", "globals"}
 Bugs == {"none", "load_no_ref", "freeze_no_forward", "add_to_heap_no_ref", "import_no_ref",
          "globals_build_no_ref", "from_globals_no_ref", "eval_no_globals_ref"}
 
-ASSUME Hows \subseteq AllHows /\ Bug \in Bugs
+ASSUME Hows \subseteq AllHows /\ Feat \subseteq AllFeat /\ Bug \in Bugs
 
 VARIABLES st,      \* [1..N -> {"unused","open","frozen","gone"}]   holder state of module k
           kind,    \* [1..N -> {"mod","glob"}]
@@ -52,6 +54,7 @@ Hs == 1..NH
 Own(k) == [mk |-> k, mj |-> 1, via |-> "own", val |-> <<[w |-> "own", m |-> k, j |-> 1]>>]
 NoSym == [mk |-> 0, mj |-> 0, via |-> "", val |-> <<>>]
 NoHandle == [st |-> "unused", heap |-> 0, sym |-> NoSym]
+GoneHandle == [st |-> "gone", heap |-> 0, sym |-> NoSym]
 
 Mods(s) == {s.val[i].m : i \in 1..Len(s.val)}
 
@@ -122,6 +125,7 @@ EvalLoad(k, f, i, how) ==
 (* Module::import_public_symbols(fm) then bind symbol i `how`.
    modules.rs: self.frozen_heap.add_reference(&module.heap). *)
 ImportPublic(k, f, i, how) ==
+    /\ "import" \in Feat
     /\ k \in Open /\ f \in FrozenMods /\ i \in 1..Len(syms[f]) /\ how \in Hows
     /\ CanWrap(k, how, syms[f][i])
     /\ frefs' = [frefs EXCEPT ![k] = IF Bug = "import_no_ref" THEN @ ELSE @ \cup {f}]
@@ -137,11 +141,13 @@ Freeze(k) ==
     /\ alive' = [alive EXCEPT ![k] = TRUE]
     /\ frefs' = [frefs EXCEPT ![k] = IF Bug = "freeze_no_forward" THEN @ ELSE @ \cup hrefs[k]]
     /\ hrefs' = [hrefs EXCEPT ![k] = {}]
+    /\ glob' = [glob EXCEPT ![k] = 0]
     /\ Op("freeze", k, 0, 0, 0, "", FALSE)
-    /\ UNCHANGED <<kind, syms, glob, hd>>
+    /\ UNCHANGED <<kind, syms, hd>>
 
 (* FrozenModule::get_owned(sym): OwnedFrozen = (FrozenHeapRef of f, value). *)
 GetOwned(f, i) ==
+    /\ "owned" \in Feat
     /\ FreeH # {} /\ f \in FrozenMods /\ i \in 1..Len(syms[f])
     /\ hd' = [hd EXCEPT ![NextH] = [st |-> "live", heap |-> f, sym |-> [syms[f][i] EXCEPT !.via = "owned"]]]
     /\ Op("get_owned", 0, f, i, NextH, "", FALSE)
@@ -155,7 +161,7 @@ AddToHeap(h, k, how, c) ==
     /\ CanWrap(k, how, hd[h].sym)
     /\ hrefs' = [hrefs EXCEPT ![k] = IF Bug = "add_to_heap_no_ref" THEN @ ELSE @ \cup {hd[h].heap}]
     /\ syms' = [syms EXCEPT ![k] = Append(@, Mk(k, Len(@) + 1, how, hd[h].sym, "add_to_heap"))]
-    /\ hd' = IF c THEN [hd EXCEPT ![h].st = "gone"] ELSE hd
+    /\ hd' = IF c THEN [hd EXCEPT ![h] = GoneHandle] ELSE hd
     /\ Op("add_to_heap", k, 0, 0, h, how, c)
     /\ UNCHANGED <<st, kind, alive, frefs, glob>>
 
@@ -164,6 +170,7 @@ AddToHeap(h, k, how, c) ==
    heap (how = "list"); build() makes arena g.  heap_type.rs OwnedFrozenRef::add_to_frozen_heap. *)
 GlobalsFromModule(f, i, how) ==
     LET g == NextId IN
+    /\ "globals" \in Feat
     /\ g <= N /\ f \in FrozenMods /\ i \in 1..Len(syms[f]) /\ how \in Hows \cap {"direct", "list"}
     /\ Len(syms[f][i].val) + (IF how = "direct" THEN 0 ELSE 1) <= MaxDepth
     /\ st' = [st EXCEPT ![g] = "frozen"]
@@ -176,6 +183,7 @@ GlobalsFromModule(f, i, how) ==
 
 GlobalsFromHandle(h, how) ==
     LET g == NextId IN
+    /\ "globals" \in Feat
     /\ g <= N /\ h \in LiveH /\ how \in Hows \cap {"direct", "list"}
     /\ Len(hd[h].sym.val) + (IF how = "direct" THEN 0 ELSE 1) <= MaxDepth
     /\ st' = [st EXCEPT ![g] = "frozen"]
@@ -188,7 +196,7 @@ GlobalsFromHandle(h, how) ==
 
 (* an open module created with Globals g binds g's variable `how` *)
 UseGlobal(k, how) ==
-    /\ k \in Open /\ glob[k] # 0 /\ how \in Hows
+    /\ k \in Open /\ glob[k] # 0 /\ how \in Hows /\ Len(syms[glob[k]]) >= 1
     /\ CanWrap(k, how, syms[glob[k]][1])
     /\ syms' = [syms EXCEPT ![k] = Append(@, Mk(k, Len(@) + 1, how, syms[glob[k]][1], "globals"))]
     /\ Op("use_global", k, glob[k], 1, 0, how, FALSE)
@@ -211,8 +219,10 @@ DropOpen(k) ==
     /\ st' = [st EXCEPT ![k] = "gone"]
     /\ hrefs' = [hrefs EXCEPT ![k] = {}]
     /\ frefs' = [frefs EXCEPT ![k] = {}]
+    /\ syms' = [syms EXCEPT ![k] = <<>>]
+    /\ glob' = [glob EXCEPT ![k] = 0]
     /\ Op("drop_open", k, 0, 0, 0, "", FALSE)
-    /\ UNCHANGED <<kind, alive, syms, glob, hd>>
+    /\ UNCHANGED <<kind, alive, hd>>
 
 DropFrozen(k) ==
     /\ k \in Frozen
@@ -222,7 +232,7 @@ DropFrozen(k) ==
 
 DropHandle(h) ==
     /\ h \in LiveH
-    /\ hd' = [hd EXCEPT ![h].st = "gone"]
+    /\ hd' = [hd EXCEPT ![h] = GoneHandle]
     /\ Op("drop_handle", 0, 0, 0, h, "", FALSE)
     /\ UNCHANGED <<st, kind, alive, hrefs, frefs, syms, glob>>
 
@@ -238,26 +248,38 @@ Reachable == Closure(Roots)
 Free(k) ==
     /\ alive[k] /\ k \notin Reachable
     /\ alive' = [alive EXCEPT ![k] = FALSE]
+    /\ frefs' = [frefs EXCEPT ![k] = {}]        \* its FrozenHeapRefs are dropped with it
+    /\ syms' = [syms EXCEPT ![k] = <<>>]
     /\ Op("free", k, 0, 0, 0, "", FALSE)
-    /\ UNCHANGED <<st, kind, hrefs, frefs, syms, glob, hd>>
+    /\ UNCHANGED <<st, kind, hrefs, glob, hd>>
 
-NextNoFree ==
-    \/ \E g \in 0..N : NewModule(g)
-    \/ \E k \in Ids, f \in Ids, i \in 1..MaxSyms, how \in Hows : EvalLoad(k, f, i, how) \/ ImportPublic(k, f, i, how)
-    \/ \E k \in Ids : Freeze(k) \/ DropOpen(k) \/ DropFrozen(k) \/ ModuleFromGlobals(k)
-    \/ \E f \in Ids, i \in 1..MaxSyms : GetOwned(f, i)
-    \/ \E h \in Hs, k \in Ids, how \in Hows, c \in BOOLEAN : AddToHeap(h, k, how, c)
-    \/ \E f \in Ids, i \in 1..MaxSyms, how \in Hows : GlobalsFromModule(f, i, how)
-    \/ \E h \in Hs, how \in Hows : GlobalsFromHandle(h, how)
-    \/ \E k \in Ids, how \in Hows : UseGlobal(k, how)
-    \/ \E h \in Hs : DropHandle(h)
+\* (quantifier domains are narrowed to the enabled instances: TLC evaluates them once per state)
+NextBuild ==
+    \/ \E g \in {0} \cup FrozenGlobs : NewModule(g)
+    \/ \E k \in Open, f \in FrozenMods : \E i \in 1..Len(syms[f]), how \in Hows :
+            EvalLoad(k, f, i, how) \/ ImportPublic(k, f, i, how)
+    \/ \E k \in Open : Freeze(k)
+    \/ \E g \in FrozenGlobs : ModuleFromGlobals(g)
+    \/ \E f \in FrozenMods : \E i \in 1..Len(syms[f]) : GetOwned(f, i)
+    \/ \E h \in LiveH, k \in Open, how \in Hows, c \in BOOLEAN : AddToHeap(h, k, how, c)
+    \/ \E f \in FrozenMods : \E i \in 1..Len(syms[f]), how \in Hows : GlobalsFromModule(f, i, how)
+    \/ \E h \in LiveH, how \in Hows : GlobalsFromHandle(h, how)
+    \/ \E k \in Open, how \in Hows : UseGlobal(k, how)
 
-Next == NextNoFree \/ \E k \in Ids : Free(k)
+NextDrop ==
+    \/ \E k \in Open : DropOpen(k)
+    \/ \E k \in Frozen : DropFrozen(k)
+    \/ \E h \in LiveH : DropHandle(h)
+
+NextNoFree == NextBuild \/ NextDrop
+
+Next == NextNoFree \/ \E k \in {a \in Ids : alive[a]} : Free(k)
 
 Spec == Init /\ [][Next]_vars
 
 (* what an alive holder's values point into *)
-OpenPts(k) == UNION {Mods(syms[k][i]) : i \in 1..Len(syms[k])} \ {k}
+\* (an open module also points into the Globals it is evaluated with: scope resolution, DefInfo)
+OpenPts(k) == (UNION {Mods(syms[k][i]) : i \in 1..Len(syms[k])} \cup (IF glob[k] = 0 THEN {} ELSE {glob[k]})) \ {k}
 FrozenPts(k) == {k} \cup UNION {Mods(syms[k][i]) : i \in 1..Len(syms[k])}
 HandlePts(h) == Mods(hd[h].sym)
 
@@ -271,6 +293,22 @@ PointersCovered ==
     /\ \A k \in Open : OpenPts(k) \subseteq Closure(hrefs[k] \cup frefs[k])
     /\ \A k \in Frozen : FrozenPts(k) \subseteq Closure({k})
     /\ \A h \in LiveH : HandlePts(h) \subseteq Closure({hd[h].heap})
+
+(* M: the invariants and the enabling conditions depend on a value only through the set of
+   modules of its layers and its depth, so this projection is a bisimulation; TLC explores one
+   representative per class (cfg: VIEW MView). *)
+Abs(s) == <<Mods(s), IF MaxDepth >= N * MaxSyms THEN 0 ELSE Len(s.val)>>
+HAbs(h) == <<hd[h].heap, Abs(hd[h].sym)>>
+MView == <<st, kind, alive, glob,
+           IF Bug = "none" THEN <<[k \in Ids |-> hrefs[k] \cup frefs[k]]>> ELSE <<hrefs, frefs>>,
+           [k \in Ids |-> [i \in 1..Len(syms[k]) |-> Abs(syms[k][i])]],
+           Cardinality(FreeH),
+           {<<HAbs(h), Cardinality({h2 \in LiveH : HAbs(h2) = HAbs(h)})>> : h \in LiveH}>>
+
+(* Releasing memory as early as the reference counts allow is the worst case for NoDangling
+   (a later release only keeps more alive), so the large configuration gives Free priority:
+   cfg ACTION_CONSTRAINT EagerFree.  The small configuration explores every lazy schedule too. *)
+EagerFree == (\E k \in Ids : alive[k] /\ k \notin Reachable) => last'.op = "free"
 
 TypeOK ==
     /\ \A k \in Ids : st[k] \in {"unused", "open", "frozen", "gone"} /\ Len(syms[k]) <= MaxSyms
